@@ -33,7 +33,11 @@ def run_variant(item):
             src = contents.get(fp)
             if src is None:
                 src = open(fp).read()
-            if src.count(ed["old"]) != 1:
+            if ed.get("all"):
+                # rename-style edit: every occurrence in the file
+                if src.count(ed["old"]) < 1:
+                    return dict(name=name, prop=prop, status="skipped", why="old text does not occur in %s" % ed["file"])
+            elif src.count(ed["old"]) != 1:
                 return dict(name=name, prop=prop, status="skipped", why="old text occurs %d times in %s" % (src.count(ed["old"]), ed["file"]))
             contents[fp] = src.replace(ed["old"], ed["new"])
         for i, (fp, src) in enumerate(contents.items()):
